@@ -498,7 +498,7 @@ impl RecomputeHeap {
 //@ name: unlink
 //@ as: fn unlink(&mut self, node: &NodeRef)
 //@ rule R5 re: `let mut (\w+) = (\w+)\.borrow_mut\(\);` => `let \1 = \2;` x1
-//@ rule R8: `q.iter().position(|x| rc_thin_ptr_eq(x, node))` => `vx_position_same_node(q, node)` x1
+//@ rule R8 re: `(\w+)\.iter\(\)\.position\(\|(\w+)\|\s*rc_thin_ptr_eq\(\2,\s*(\w+)\)\)` => `vx_position_same_node(\1, \3)` x1
 //@ props: C05 C06 C11 C19
 //@ contract:
 //@|     requires
@@ -518,7 +518,7 @@ impl RecomputeHeap {
 //@ as: fn unlink__not_queued_must_panic(&mut self, node: &NodeRef)
 //@ panics: diverge
 //@ rule R5 re: `let mut (\w+) = (\w+)\.borrow_mut\(\);` => `let \1 = \2;` x1
-//@ rule R8: `q.iter().position(|x| rc_thin_ptr_eq(x, node))` => `vx_position_same_node(q, node)` x1
+//@ rule R8 re: `(\w+)\.iter\(\)\.position\(\|(\w+)\|\s*rc_thin_ptr_eq\(\2,\s*(\w+)\)\)` => `vx_position_same_node(\1, \3)` x1
 //@ props: C05 C06 C11 C19
 //@ contract:
 //@|     requires
